@@ -92,7 +92,7 @@ def _passthrough(eff: Effects, site: tuple) -> bool:
     return cs is not None and _reportable_in(eff, cs.f, origin)
 
 
-def rule_write(repo: Repo, rid: str = "C07.write", floor: int = 40) -> RuleResult:
+def rule_write(repo: Repo, rid: str = "C07.write", floor: int = 40, only=None) -> RuleResult:
     r = RuleResult(rid, "no write below an input-holding field of self, below a parameter of a public entry point, or into a module global",
                    "inputs (domain, action schemas, states) keep their value")
     eff = effects(repo)
@@ -100,6 +100,8 @@ def rule_write(repo: Repo, rid: str = "C07.write", floor: int = 40) -> RuleResul
     entries = 0
     for s in eff.sums.values():
         f = s.f
+        if only is not None and not only(f):
+            continue
         unknown += len(s.unknown_muts)
         short = _short(f)
         entry = _is_entry(f)
@@ -240,5 +242,5 @@ def rule_escape(repo: Repo, rid: str = "C07.escape", floor: int = 2) -> RuleResu
 
 
 def rules(repo: Repo, tier: str) -> List[RuleResult]:
-    from . import c14
-    return [rule_write(repo), rule_global(repo), rule_escape(repo), c14.rule_copy(repo, "C07.copyfresh")]
+    from . import c14, c19
+    return [rule_write(repo), rule_global(repo), rule_escape(repo), c14.rule_copy(repo, "C07.copyfresh"), c19.rule_cache(repo, "C07.cache")]
